@@ -14,7 +14,7 @@ from __future__ import annotations
 
 from typing import List, Optional, Set, Tuple
 
-Entry = Tuple[str, Optional[str], Optional[str], Set[str]]
+Entry = Tuple  # (rule, function substring, construct prefix, properties[, file substring])
 
 TABLE: List[Entry] = [
     # ---- propagation loop -------------------------------------------------------------------------------
@@ -106,6 +106,8 @@ TABLE: List[Entry] = [
     ("R-SENTINEL", None, "returns-non-decision-domain", {"C01", "C02", "C04", "C09", "C16"}),
     ("R-SENTINEL", None, None, {"C04", "C16"}),
     ("R-OPTIONAL-ZERO", None, None, {"C01", "C02", "C03", "C13"}),
+    # solving a model leaves it as written: reuse (C15), re-optimisation (C03), the rewritten model compared with the original (C13)
+    ("R-PROBLEM-READONLY", None, None, {"C03", "C13", "C15"}),
     ("R-MODE-ARITH", None, "narrow-sum-compared", {"C15", "C16", "C19"}),
     ("R-MODE-ARITH", None, None, {"C15"}),
     # ---- wake-up primitive ---------------------------------------------------------------------------------
@@ -148,15 +150,29 @@ TABLE: List[Entry] = [
     # where the function addresses are taken: per call, in the process that uses them (C11: every start method; C15: no state kept across calls)
     ("R-DISPATCH", None, "address-params", {"C11", "C15"}),
     ("R-DISPATCH", None, None, {"C15"}),
+    # state shared by the solvers of one process: the solvers of the parts of a split run side by side (C11 / C12), any other module-level
+    # state is a reproducibility matter (C15)
+    ("R-GLOBAL-STATE", None, None, {"C11", "C12", "C15"}, "nucs/solvers/"),
+    ("R-GLOBAL-STATE", None, None, {"C15"}),
+    # the parts of a split are what the multiprocessing solver enumerates: a part that leaves the declared domain yields out-of-domain
+    # solutions (C01), overlapping or missing values duplicate / lose solutions (C02)
+    ("R-SPLIT", None, "translation", {"C01", "C02", "C12"}),
+    ("R-SPLIT", None, "adjacency", {"C01", "C02", "C12"}),
+    ("R-SPLIT", None, "first-part", {"C01", "C02", "C12"}),
+    ("R-SPLIT", None, "covers-domain", {"C01", "C02", "C12"}),
+    ("R-SPLIT", None, None, {"C12"}),
     # ---- capacity ------------------------------------------------------------------------------------------
     ("R-CAPACITY", None, "push-unreported", {"C19"}),
     ("R-CAPACITY", None, None, {"C16", "C19", "C10"}),
 ]
 
 
-def in_scope(prop: str, rule: str, function: str, construct: str) -> bool:
-    for r, fsub, cpre, props in TABLE:
+def in_scope(prop: str, rule: str, function: str, construct: str, file: str = "") -> bool:
+    for entry in TABLE:
+        r, fsub, cpre, props = entry[:4]
         if r != rule:
+            continue
+        if len(entry) > 4 and entry[4] not in file:
             continue
         if fsub is not None and fsub not in function:
             continue
